@@ -228,12 +228,16 @@ class VideoPlayer(HTMLHandlerBase):
             logging.error("Invalid CGI parameters: %s", err)
             return flask.make_response("Invalid CGI parameters", 400)
         options.remove_unused_parameters(mode)
-        dash_parms = ManifestContext(
-            manifest=manifests.manifest_map[manifest],
-            options=options,
-            stream=stream_model,
-            multi_period=multi_period,
-        )
+        try:
+            dash_parms = ManifestContext(
+                manifest=manifests.manifest_map[manifest],
+                options=options,
+                stream=stream_model,
+                multi_period=multi_period,
+            )
+        except ValueError as err:
+            logging.warning("Unable to create manifest context: %s", err)
+            return flask.make_response(html.escape(str(err)), 404)
         if stream_model:
             dash_parms.stream = stream_model.to_dict(
                 only={"pk", "title", "directory", "playready_la_url", "marlin_la_url"}
